@@ -2,14 +2,14 @@
 # usage: confirm_seed.sh Cxx   (worktree /tmp/wt/Cxx with patch.diff and demo.py; the patch is currently applied)
 # confirms: pinned suite passes with the change; demo fails with it and passes without it.  Development tool:
 # it runs quara (in a scratch worktree), so it is not part of any registered check.
-id=$1; wt=/tmp/wt/$id
+id=$1; base=${2:-/tmp/wt}; wt=$base/$id
 cd $wt || exit 2
 git apply -R --check patch.diff 2>/dev/null || git apply patch.diff   # make sure it is applied
 echo "== $id pinned suite with the change"
 /venv/bin/python -m pytest -q -p no:cacheprovider --timeout=900 --continue-on-collection-errors 2>&1 | tail -1
 echo "== $id demo with the change"
-PYTHONPATH=/tmp/rd/site:$wt timeout 900 /venv/bin/python demo.py > /tmp/rd/demo_$id.with.txt 2>&1; echo "exit=$?"; tail -2 /tmp/rd/demo_$id.with.txt | cut -c1-200
+PYTHONPATH=/tmp/rd/site:$wt timeout 900 /venv/bin/python demo.py > /tmp/rd/demo_$(basename $base)_$id.with.txt 2>&1; echo "exit=$?"; tail -2 /tmp/rd/demo_$(basename $base)_$id.with.txt | cut -c1-200
 git apply -R patch.diff
 echo "== $id demo without the change"
-PYTHONPATH=/tmp/rd/site:$wt timeout 900 /venv/bin/python demo.py > /tmp/rd/demo_$id.without.txt 2>&1; echo "exit=$?"; tail -2 /tmp/rd/demo_$id.without.txt | cut -c1-200
+PYTHONPATH=/tmp/rd/site:$wt timeout 900 /venv/bin/python demo.py > /tmp/rd/demo_$(basename $base)_$id.without.txt 2>&1; echo "exit=$?"; tail -2 /tmp/rd/demo_$(basename $base)_$id.without.txt | cut -c1-200
 git apply patch.diff
